@@ -28,6 +28,40 @@ class T(ast.NodeTransformer):
         return node
 
 
+class Idioms(ast.NodeTransformer):
+    """isinstance(x, A) or isinstance(x, B) -> isinstance(x, (A, B));  d.keys() in for / in -> d;  X == list() -> not X;  X != list() -> X"""
+
+    def visit_BoolOp(self, node):
+        self.generic_visit(node)
+        if isinstance(node.op, ast.Or) and all(isinstance(v, ast.Call) and isinstance(v.func, ast.Name) and v.func.id == "isinstance" and len(v.args) == 2
+                                                for v in node.values):
+            subj = {ast.unparse(v.args[0]) for v in node.values}
+            if len(subj) == 1:
+                return ast.copy_location(ast.Call(func=ast.Name(id="isinstance", ctx=ast.Load()),
+                                                  args=[node.values[0].args[0], ast.Tuple(elts=[v.args[1] for v in node.values], ctx=ast.Load())], keywords=[]), node)
+        return node
+
+    def visit_For(self, node):
+        self.generic_visit(node)
+        it = node.iter
+        if isinstance(it, ast.Call) and isinstance(it.func, ast.Attribute) and it.func.attr == "keys" and not it.args:
+            node.iter = it.func.value
+        return node
+
+    def visit_Compare(self, node):
+        self.generic_visit(node)
+        if len(node.ops) == 1:
+            c = node.comparators[0]
+            if isinstance(node.ops[0], (ast.In, ast.NotIn)) and isinstance(c, ast.Call) and isinstance(c.func, ast.Attribute) and c.func.attr == "keys" and not c.args:
+                node.comparators = [c.func.value]
+            if isinstance(node.ops[0], (ast.Eq, ast.NotEq)) and isinstance(c, ast.Call) and isinstance(c.func, ast.Name) and c.func.id in ("list", "dict") \
+                    and not c.args and not c.keywords and not isinstance(node.left, ast.Call):
+                if isinstance(node.ops[0], ast.Eq):
+                    return ast.copy_location(ast.UnaryOp(op=ast.Not(), operand=node.left), node)
+                return node.left
+        return node
+
+
 def mark_chains(tree):
     for n in ast.walk(tree):
         if isinstance(n, ast.If) and len(n.orelse) == 1 and isinstance(n.orelse[0], ast.If):
@@ -46,7 +80,7 @@ try:
                 p = os.path.join(d, f)
                 tree = ast.parse(open(p).read())
                 mark_chains(tree)
-                tree = T().visit(tree)
+                tree = Idioms().visit(tree) if MODE == "idioms" else T().visit(tree)
                 ast.fix_missing_locations(tree)
                 open(p, "w").write(ast.unparse(tree) + "\n")
     for pr in props:
